@@ -1272,7 +1272,11 @@ func (e *Engine) binop(st *State, fr *Frame, op token.Token, x, y Value, xt type
 			return &StrVal{known: true, s: sx.s + sy.s}
 		}
 		if op == token.ADD {
-			return &StrVal{} // contents not tracked
+			// contents not tracked byte by byte: the abstract value is the concatenation
+			if a, b := strAbs(sx), strAbs(sy); a != nil && b != nil {
+				return &StrVal{abs: mkBcat(a, b)}
+			}
+			return &StrVal{}
 		}
 		e.fail("unsupported string operation %s", op)
 	}
@@ -1362,6 +1366,9 @@ func (e *Engine) valuesEqual(st *State, x, y Value) *Term {
 			return a.null
 		}
 		// both possibly non-nil
+		if (a.dyn != nil && excludedDyn(b, a.dyn)) || (b.dyn != nil && excludedDyn(a, b.dyn)) {
+			return tFalse
+		}
 		if a.tag != "" && b.tag != "" {
 			return mkAnd(mkNot(a.null), mkNot(b.null), mkBool(a.tag == b.tag))
 		}
@@ -1416,11 +1423,14 @@ func ifaceTagTerm(a *IfaceVal) *Term {
 	if a.dyn != nil {
 		// a value of a zero-size struct type is identified by its dynamic type alone
 		if s, ok := underlying(a.dyn).(*types.Struct); ok && s.NumFields() == 0 {
-			return mkApp("dyntype$"+a.dyn.String(), SInt)
+			return dynTypeTerm(a.dyn)
 		}
 	}
 	return nil
 }
+
+// dynTypeTerm: the identity of a dynamic type, as compared with the tag of a symbolic interface value.
+func dynTypeTerm(t types.Type) *Term { return mkApp("dyntype$"+t.String(), SInt) }
 
 func constValue(e *Engine, c *ssa.Const) Value {
 	t := c.Type()
